@@ -635,6 +635,15 @@ impl World {
                         }
                     }
                 }
+                SpOp::DeleteCreated => {
+                    if let Some((id, _)) = created_psp.pop() {
+                        match txn.delete_persistent_savepoint(id) {
+                            Ok(true) => spx.push(format!("d{id}")),
+                            Ok(false) => out.oracle_fail(format!("savepoint-delete|persistent savepoint {id} created in this transaction reported missing")),
+                            Err(e) => out.oracle_fail(format!("savepoint-delete|{e:?}")),
+                        }
+                    }
+                }
                 SpOp::DeletePersistent(k) => {
                     if spec.immediate() && !self.psp.is_empty() {
                         let id = *self.psp.keys().nth(*k % self.psp.len()).unwrap();
@@ -887,6 +896,19 @@ impl World {
         } else {
             // C05/C07: nothing of the abandoned transaction may remain
             drop(new_sps);
+            // ... in the tracker either: the registered savepoints and the counted readers are
+            // those from before the transaction began
+            if !self.leaky {
+                let now = self.db().verif_snapshot().tracker;
+                let was = &snap_before.tracker;
+                if now.valid_savepoints != was.valid_savepoints || now.persistent_savepoints != was.persistent_savepoints || now.live_read_transactions != was.live_read_transactions {
+                    out.oracle_fail(format!(
+                        "abandoned-txn-left-registrations|after an abandoned transaction ({:?}, savepoint ops {}) the tracker holds savepoints {:?} / persistent {:?} / read references {:?}, before it began {:?} / {:?} / {:?}",
+                        spec.end, if spx.is_empty() { "-".to_string() } else { spx.join(",") },
+                        now.valid_savepoints, now.persistent_savepoints, now.live_read_transactions, was.valid_savepoints, was.persistent_savepoints, was.live_read_transactions
+                    ));
+                }
+            }
         }
         result
     }
@@ -1081,6 +1103,8 @@ pub enum Op {
 pub enum SpOp {
     Ephemeral,
     Persistent,
+    /// delete the persistent savepoint created last in this same transaction
+    DeleteCreated,
     DeletePersistent(usize),
     RestoreEphemeral(usize),
     RestorePersistent(usize),
@@ -1160,6 +1184,7 @@ pub(crate) fn gen_history(rng: &mut Rng, focus: &str, thorough: bool, page: usiz
         let w = rng.below(100);
         let sp_weight = match focus {
             "c07" => 45,
+            "c05" => 35,
             "c13" => 5,
             _ => 20,
         };
@@ -1167,13 +1192,26 @@ pub(crate) fn gen_history(rng: &mut Rng, focus: &str, thorough: bool, page: usiz
             let durability = if rng.chance(if focus == "c11" { 1 } else { 2 }, 5) { Durability::None } else { Durability::Immediate };
             let mut sp_ops = vec![];
             if rng.below(100) < sp_weight {
-                for _ in 0..rng.range(1, 2) {
+                for _ in 0..rng.range(1, if focus == "c05" { 4 } else { 2 }) {
                     sp_ops.push(match rng.below(10) {
                         0..=3 => SpOp::Ephemeral,
                         4..=5 => SpOp::Persistent,
-                        6 => SpOp::DeletePersistent(rng.below(8) as usize),
+                        6 => if focus == "c05" && rng.chance(1, 2) { SpOp::DeleteCreated } else { SpOp::DeletePersistent(rng.below(8) as usize) },
                         7..=8 => SpOp::RestoreEphemeral(rng.below(8) as usize),
                         _ => SpOp::RestorePersistent(rng.below(8) as usize),
+                    });
+                }
+                // a savepoint created and removed again inside the transaction (explicitly, or by
+                // restoring an older one) must leave nothing behind, whichever way it ends
+                if focus == "c05" && rng.chance(1, 3) {
+                    sp_ops = vec![SpOp::Persistent];
+                    if rng.chance(1, 3) {
+                        sp_ops.push(SpOp::Ephemeral);
+                    }
+                    sp_ops.push(match rng.below(3) {
+                        0 => SpOp::RestoreEphemeral(rng.below(8) as usize),
+                        1 => SpOp::RestorePersistent(rng.below(8) as usize),
+                        _ => SpOp::DeleteCreated,
                     });
                 }
                 // creating a savepoint after a restore in the same transaction is refused (dirty)
